@@ -488,6 +488,19 @@ def check_C08(chk, tier, seed):
             chk.corr_break("observation differs from the model", dict(case=short(c, 4000), impl=short(im, 2000), model=short(mo, 2000)))
         if i % max(1, len(sc) // 6) == 0:
             chk.sample(dict(case=c, impl=short(im, 200), P=ok))
+    # on real sockets: a peer pipelines three requests whose answers are 512 KiB each, closes its sending direction at once and reads
+    # only half a second later - the server sees the end of the stream while most of its answers still sit in its send queue; every
+    # answer must still arrive complete (a close that discards what was written is not "written")
+    import checks_net
+    slow = core.run_sharded([eng.harness, "codec"], eng.prelude, ["NETSLOW 0", "NETSLOW 1"], shards=2, timeout=300, env=checks_net.NET_ENV)
+    for c, im in zip(["NETSLOW 0", "NETSLOW 1"], slow):
+        chk.case(c, True)
+        chk.validated += 1
+        chk.count("real-socket:slow-reader")
+        f = dict(x.split("=", 1) for x in im.split()[1:] if "=" in x) if im.startswith("NETSLOW") else {}
+        if not (f.get("got") == f.get("want") and f.get("end") == "eof" and f.get("calls") == "3"):
+            chk.violation("over a real socket, the answers to three pipelined requests did not all arrive complete at a peer that had closed its sending direction "
+                          "and read them late: " + short(im, 200), dict(case=c, impl=short(im)))
     chk.rule = ("1..8 requests (random AVP content) with handler answers of random size; delivery: one chunk (pipelined), one chunk per frame, one-octet dribble, random "
                 "chunkings with Pending; writer: unconstrained, one octet per poll, random accept sizes with Pending; in 3/5 of the scenarios one malformed frame "
                 "(AVP length below its header, unknown command, unknown AVP, hostile announced length), one failing handler call or one unencodable answer at a random "
